@@ -631,3 +631,29 @@ add("b04c", ["C15"], (P, """                has_unmarked_requirements = False
                         has_unmarked_requirements = True
                 if not has_unmarked_requirements:""", """                if all(required_job._s_mark is not None for required_job in job.required):"""),
     expect='silent')
+
+# ------------------------------------------------------------------ C16
+add("m16a", ["C16"], (P, "                changes = (not job.sanitize(verbose)) or changes", "                changes = changes or (not job.sanitize(verbose))"),
+    rules=["R16.3"])
+add("m16b", ["C16"], (P, "                changes = (not job.sanitize(verbose)) or changes", "                changes = job.sanitize(verbose) or changes"),
+    rules=["R16.4"])
+add("m16c", ["C16"], (P, "        return not changes\n", "        return changes\n"), rules=["R16.4"])
+add("m16d", ["C16"], (P, "            job.required &= self.jobs\n", "            job.required &= set(self.iterate_jobs())\n"),
+    rules=["R16.1", "R16.2"])
+add("m16e", ["C16"], (P, """            if before != after:
+                changes = True""", """            if before != after:
+                changes = False"""), rules=["R16.4"])
+add("m16f", ["C16"], (P, "            if isinstance(job, PureScheduler):\n                changes = (not", "            if isinstance(job, PureScheduler) and not changes:\n                changes = (not"),
+    rules=["R16.3"])
+add("m16g", ["C16"], (P, "            job.required &= self.jobs\n", "            if not job.forever:\n                job.required &= self.jobs\n"),
+    rules=["R16.1", "R16.2"])
+add("m16h", ["C16"], (P, "            job.required &= self.jobs\n", "            job.required |= self.jobs\n"),
+    rules=["R16.1", "R16.2"])
+add("m16i", ["C16"], (P, """                changes = (not job.sanitize(verbose)) or changes""", """                job.sanitize(verbose)"""),
+    rules=["R16.4"])
+add("b19", ["C16"], [(P, "        changes = False\n        for job in self.jobs:\n            before = len(job.required)",
+                         "        fine = True\n        for job in self.jobs:\n            before = len(job.required)"),
+                     (P, "            if before != after:\n                changes = True", "            if before != after:\n                fine = False"),
+                     (P, "                changes = (not job.sanitize(verbose)) or changes", "                fine = job.sanitize(verbose) and fine"),
+                     (P, "        return not changes\n", "        return fine\n")], expect='silent')
+add("b19b", ["C16"], (P, "            job.required &= self.jobs\n", "            job.required = job.required & self.jobs\n"), expect='silent')
